@@ -462,8 +462,10 @@ fn run_stmts<'a, Ef: SimEffect>(
                     let acc = env.acc;
                     let hs = env.handles.clone();
                     let inst = new_task_instance();
+                    // the child gets copies of the join handles its parent holds now
+                    let inherited = env.slots.clone();
                     let handle = ctx.spawn(move |c| async move {
-                        tracked_as(inst, interp_with::<Ef>(t, acc, c, BTreeMap::new(), hs)).await;
+                        tracked_as(inst, interp_with::<Ef>(t, acc, c, inherited, hs)).await;
                     });
                     if let Some(slot) = slot {
                         let h2 = handle.clone();
